@@ -63,6 +63,8 @@ def run(F, chk):
     check_b4(F, lib, B4)
     B5 = chk.rule('B5', 'every integer division/remainder has a divisor that is a non-zero constant, locally guarded non-zero, or a field all of whose writers store a guarded non-zero value')
     check_b5(F, lib, B5)
+    B6 = chk.rule('B6', 'cursor/remaining parsers: cursor advances and remaining-bytes decrements stay in lockstep, and every cursor-relative read is dominated by a fresh `remaining >= size` test')
+    check_b6(lib, B6)
     # census of what no rule speaks about
     census = {}
     for b in lib:
@@ -692,3 +694,223 @@ def field_writers(lib, owner, name, idx):
                 continue
             out.append((b.loc(s.sp), show(val), _nonzero_known(guards.known(cfg, E, blk.i), val)))
     return out
+
+
+# ---------------------------------------------------------------------------------------------
+# B6: cursor / remaining-bytes lockstep
+
+INT_WIDTH = {'u8': 1, 'i8': 1, 'u16': 2, 'i16': 2, 'u32': 4, 'i32': 4, 'u64': 8, 'i64': 8}
+
+
+def _lin(e, cname):
+    """decompose an index expression as  cursor*k + const + other : returns (k in {0,1}, const, other text or None) or None"""
+    if isinstance(e, tuple) and e[0] == 'cast':
+        return _lin(e[1], cname)
+    v = fold(e)
+    if v is not None:
+        return (0, v, None)
+    if e == ('place', cname):
+        return (1, 0, None)
+    if isinstance(e, tuple) and e[0] == 'bin' and e[1] == 'Add':
+        a, b = _lin(e[2], cname), _lin(e[3], cname)
+        if a is None or b is None:
+            return None
+        if a[2] is not None and b[2] is not None:
+            return None
+        return (a[0] + b[0], a[1] + b[1], a[2] if a[2] is not None else b[2])
+    return (0, 0, show(e))
+
+
+def find_cursor_pairs(body, cfg, E):
+    """(cursor local name, remaining local name, slice text, K): named locals with  cursor = K ; cursor = cursor + _   and
+    remaining = len(slice) - K ; remaining = remaining - _   (nothing else stored into them)"""
+    cands_c, cands_r = {}, {}
+    for l, ds in cfg.defs.items():
+        nm = body.name_of(l)
+        if nm is None or len(ds) < 2 or len(body.locals_named(nm)) != 1:
+            continue
+        init = []
+        steps = []
+        bad = False
+        for (bi, si, d) in ds:
+            if si == 'call':
+                bad = True
+                break
+            e = E.rvalue(d.rv)
+            if isinstance(e, tuple) and e[0] == 'bin' and e[1] in ('Add', 'Sub') and e[2] == ('place', nm):
+                steps.append((e[1], e[3], bi))
+            else:
+                init.append(e)
+        if bad or len(init) != 1 or not steps:
+            continue
+        i0 = init[0]
+        if all(op == 'Add' for op, _, _ in steps) and fold(i0) is not None:
+            cands_c[nm] = fold(i0)
+        if all(op == 'Sub' for op, _, _ in steps):
+            if isinstance(i0, tuple) and i0[0] == 'bin' and i0[1] == 'Sub' and is_len_call(i0[2]) and fold(i0[3]) is not None:
+                cands_r[nm] = (show(strip(i0[2][2][0])) if i0[2][0] == 'call' else show(i0[2]), fold(i0[3]))
+            elif is_len_call(i0):
+                cands_r[nm] = (show(strip(i0[2][0])) if i0[0] == 'call' else show(i0), 0)
+    out = []
+    for c, k in cands_c.items():
+        for r, (sl, k2) in cands_r.items():
+            if k == k2:
+                out.append((c, r, sl, k))
+    return out
+
+
+def is_len_call(e):
+    return isinstance(e, tuple) and ((e[0] == 'call' and e[1].endswith('::len') and e[2]) or (e[0] == 'un' and e[1] == 'PtrMetadata'))
+
+
+def check_b6(lib, B6):
+    """Parsers that walk a byte slice with a cursor and a remaining-bytes counter (`offset` / `avail`):
+      (a) lockstep: on every path the advances of the cursor and the decrements of the counter cancel (same amounts) whenever
+          the counter is tested or the cursor is used to read - so  cursor + remaining == len(slice)  holds there;
+      (b) every read of the slice at cursor+a .. cursor+a+L is dominated by a test  remaining >= a+L  with no store to either
+          variable between test and read.
+    Together: no crafted length field can make the read leave the slice."""
+    from paths import Explorer
+    import pairing
+    n_fn = 0
+    n_reads = 0
+    for b in lib:
+        if not B3_ANCHOR.match(b.path) or b.kind == 'closure':
+            continue
+        cfg = CFG(b)
+        E = ExprBuilder(cfg)
+        pairs = find_cursor_pairs(b, cfg, E)
+        if not pairs:
+            continue
+        for (c, r, sl, k) in pairs:
+            n_fn += 1
+            B6.fn(b.path)
+            cl, rl = b.locals_named(c)[0], b.locals_named(r)[0]
+            # ---- (a) lockstep
+            steps = {}     # block -> list of ('c'|'r', amount text)
+            for (bi, si, d) in cfg.defs[cl]:
+                e = E.rvalue(d.rv)
+                if isinstance(e, tuple) and e[0] == 'bin' and e[1] == 'Add' and e[2] == ('place', c):
+                    steps.setdefault(bi, []).append(('c', show(e[3])))
+            for (bi, si, d) in cfg.defs[rl]:
+                e = E.rvalue(d.rv)
+                if isinstance(e, tuple) and e[0] == 'bin' and e[1] == 'Sub' and e[2] == ('place', r):
+                    steps.setdefault(bi, []).append(('r', show(e[3])))
+            observers = {}
+            reads = []
+            for blk in b.blocks:
+                if blk.cleanup:
+                    continue
+                t = blk.term
+                if t.k == 'switch':
+                    sc = E.switch_cond(blk)
+                    if any(x == ('place', r) for x in walk(sc)):
+                        observers[blk.i] = 'test of `%s`' % r
+                if t.k == 'call':
+                    p = t.callee.path
+                    a0 = show(strip(E.operand(t.args[0]))) if t.args else ''
+                    rng = None
+                    if (GET.search(p) or re.search(r'::(index|index_mut)$', p)) and len(t.args) > 1 and sl in a0:
+                        e = E.operand(t.args[1])
+                        if isinstance(e, tuple) and e[0] == 'agg' and e[1].endswith('Range::Range'):
+                            rng = (e[2][0], e[2][1], None)
+                    elif p.endswith('::parse_payload_int') and len(t.args) >= 3 and sl in show(strip(E.operand(t.args[1]))):
+                        m = re.search(r'Option<(\w+)>', t.dest.t or '')
+                        w = INT_WIDTH.get(m.group(1)) if m else None
+                        rng = (E.operand(t.args[2]), None, w)
+                    if rng is not None:
+                        lo = _lin(rng[0], c)
+                        if lo is not None and lo[0] == 1:
+                            observers[blk.i] = 'read at `%s`' % show(rng[0])
+                            reads.append((blk, rng, lo))
+
+            def imb_get(facts, key):
+                for f in facts:
+                    if f[0] == 'imb' and f[1] == key:
+                        return f[2]
+                return 0
+
+            def imb_set(facts, key, nval):
+                rest = [f for f in facts if not (f[0] == 'imb' and f[1] == key)]
+                if nval > 0:
+                    rest.append(('imb', key, min(nval, 3)))
+                return frozenset(rest)
+
+            def block_effect(blk, facts):
+                for (w, amt) in steps.get(blk.i, []):
+                    other = ('r' if w == 'c' else 'c', amt)
+                    if imb_get(facts, other) > 0:
+                        facts = imb_set(facts, other, imb_get(facts, other) - 1)
+                    else:
+                        facts = imb_set(facts, (w, amt), imb_get(facts, (w, amt)) + 1)
+                return facts
+            ex = Explorer(cfg, block_effect=block_effect, var_roots=set())
+            ex.run()
+            B6.paths += ex.n_states
+            bad = None
+            for bi, what in observers.items():
+                for st in ex.states.get(bi, ()):
+                    imb = [(f[1], f[2]) for f in st[1] if f[0] == 'imb']
+                    if imb:
+                        bad = (bi, what, imb, st)
+                        break
+                if bad:
+                    break
+            B6.sites += len(observers)
+            if bad is None:
+                B6.ok(sample={'function': b.path, 'cursor': c, 'remaining': r, 'slice': sl, 'initial': '%s = %d, %s = len - %d' % (c, k, r, k), 'observation_sites_balanced': len(observers)})
+            else:
+                bi, what, imb, st = bad
+                B6.violation(('lockstep', b.path, c, r), 'in %s the cursor `%s` and the remaining-bytes counter `%s` are out of step at the %s (%s): unbalanced updates %s on a path - `%s + %s == len` no longer holds, the bound checks on `%s` '
+                             'do not protect the reads at `%s`' % (b.path, c, r, what, b.loc(b.blocks[bi].term.sp), imb, c, r, r, c), where=b.loc(b.blocks[bi].term.sp), witness={'block_path': ex.witness(bi, st)[-40:]})
+            # ---- (b) guarded reads
+            for (blk, rng, lo) in reads:
+                n_reads += 1
+                a = lo[1]
+                if rng[2] is not None:
+                    need_const, need_expr = a + rng[2], None
+                else:
+                    hi = _lin(rng[1], c)
+                    if hi is None or hi[0] != 1:
+                        B6.violation(('read-shape', b.path, show(rng[1])[:30]), 'cannot relate the upper bound %s of the read at %s to the cursor' % (show(rng[1]), b.loc(blk.term.sp)), where=b.loc(blk.term.sp))
+                        continue
+                    need_const, need_expr = hi[1], hi[2]
+                    if lo[2] is not None:
+                        need_const, need_expr = None, None
+                ok = None
+                for (cnd, truth, D) in guards.known(cfg, E, blk.i):
+                    if not (isinstance(cnd, tuple) and cnd[0] == 'bin' and truth is True):
+                        continue
+                    op, x, y = cnd[1], cnd[2], cnd[3]
+                    if op in ('Le', 'Lt'):
+                        op, x, y = {'Le': 'Ge', 'Lt': 'Gt'}[op], y, x
+                    if op not in ('Ge', 'Gt') or x != ('place', r):
+                        continue
+                    kk = fold(y)
+                    covers = False
+                    if need_expr is None and need_const is not None and kk is not None and (kk + (1 if op == 'Gt' else 0)) >= need_const:
+                        covers = True
+                    if need_expr is not None and need_const == 0 and kk is None and show(_strip_casts(y)) == need_expr:
+                        covers = True
+                    if not covers:
+                        continue
+                    tgt = [S for (Dd, S, v, allv) in guards.dominating_edges(cfg, blk.i) if Dd == D]
+                    stale = False
+                    if tgt:
+                        fwd = cfg.reachable_from(tgt[0], avoid={D})
+                        for x_ in fwd:
+                            if x_ != blk.i and blk.i not in cfg.reachable_from(x_, avoid={D}):
+                                continue
+                            if x_ in steps and x_ != blk.i:
+                                stale = True
+                    if not stale:
+                        ok = show(cnd)
+                        break
+                if ok:
+                    B6.ok(sample={'read_at': b.loc(blk.term.sp), 'range': '%s + %d .. + %s' % (c, a, need_expr if need_expr else need_const), 'guard': ok})
+                else:
+                    B6.violation(('read-unguarded', b.path, re.sub(r'_\d+', '_', show(rng[0]))[:30]),
+                                 'the read of `%s` at %s (%s + %d, %s bytes) is not dominated by a fresh test `%s >= %s`: a crafted length/count field makes it leave the slice' %
+                                 (sl, b.loc(blk.term.sp), c, a, need_expr if need_expr else need_const, r, need_expr if need_expr else need_const), where=b.loc(blk.term.sp))
+    B6.floor('cursor/remaining parsers', n_fn, 1)
+    B6.floor('cursor-relative reads', n_reads, 4)
